@@ -240,3 +240,23 @@ def px_ops(ty):
         add(o + '_to_px', [o], 'X', f'x.to_{m}::<N>()', f'crate.convert.{T2}.to_{m} n x', f'some (Spec.embed n (Spec.conv {t2["fmt"]} {F} a))', 'C14')
         add(o + '_from_px', 'X', o, f'{T2}::from_{m}(x)', f'crate.convert.{T2}.from_{m} n x', X1(f'Spec.conv {F} {t2["fmt"]} a'), 'C14')
     return R
+
+
+def forwarders(ty):
+    """C17: (spelled operation, inherent operation it must agree with, arg kinds) — both are entries of ops_for(ty)"""
+    P = []
+    for o in ('add', 'sub', 'mul', 'div'):
+        P += [(o, o + '_m'), (o + '_assign', o + '_m')]
+    P += [('neg', 'neg_m'), ('rem', 'rem_m')]
+    for k in INTS:
+        P += [('From_' + k, 'from_' + k), (k + '_From', 'to_' + k)]
+    P += [('From_f64', 'from_f64'), ('From_f32', 'from_f32'), ('f64_From', 'to_f64'), ('f32_From', 'to_f32')]
+    for o in TYPES:
+        if o != ty: P += [('to_' + o, 'to_' + o + '_m')]
+    for o in ('abs', 'signum'): P += [('Signed_' + o, o)]
+    P += [('Signed_is_negative', 'is_sign_negative'), ('Signed_is_positive', 'is_sign_positive'), ('Zero_is_zero', 'is_zero')]
+    for o in ('sqrt', 'round', 'floor', 'ceil', 'trunc', 'fract', 'abs', 'signum', 'recip', 'mul_add', 'min', 'max'):
+        P += [('Float_' + o, o)]
+    P += [('lt', 'lt_m'), ('le', 'le_m'), ('gt', 'gt_m'), ('ge', 'ge_m'), ('eq', 'eq_m'), ('cmp', 'cmp_m')]
+    ops = {op: (args, lean) for (op, args, ret, rust, lean, spec, prop) in ops_for(ty)}
+    return [(a, b, list(ops[a][0])) for a, b in P if a in ops and b in ops and list(ops[a][0]) == list(ops[b][0])]
